@@ -18,6 +18,7 @@ import (
 	"github.com/algorand/msgp/msgp"
 
 	"github.com/algorand/go-algorand/crypto"
+	"github.com/algorand/go-algorand/crypto/merklesignature"
 	"github.com/algorand/go-algorand/data/bookkeeping"
 	"github.com/algorand/go-algorand/data/transactions"
 	"github.com/algorand/go-algorand/protocol"
@@ -107,3 +108,17 @@ func TestVerifC40Replay(t *testing.T) {
 
 func TestVerifC41Msgp(t *testing.T)  { mon.RunC41(t, codec()) }
 func TestVerifC41Child(t *testing.T) { mon.RunC41Child(t, codec()) }
+
+// TestVerifC40MinimalWitnesses prints the minimal instances of the two encoder-divergence classes found on the
+// pinned tree (documentation of the known findings; not part of the verdict).
+func TestVerifC40MinimalWitnesses(t *testing.T) {
+	k := &merklesignature.KeyRoundPair{Key: &crypto.FalconSigner{}}
+	t.Logf("KeyRoundPair{Key:&FalconSigner{}}: Encode=%x EncodeReflect=%x", protocol.Encode(k), protocol.EncodeReflect(k))
+	tx := &transactions.Transaction{Type: protocol.HeartbeatTx, HeartbeatTxnFields: &transactions.HeartbeatTxnFields{}}
+	hr := crypto.Hash(append([]byte(protocol.Transaction), protocol.EncodeReflect(tx)...))
+	t.Logf("Transaction{Type:hb,HeartbeatTxnFields:&{}}: Encode=%x EncodeReflect=%x txid=%s txid(reflect bytes)=%s", protocol.Encode(tx), protocol.EncodeReflect(tx), tx.ID(), transactions.Txid(hr))
+	var back transactions.Transaction
+	if err := protocol.Decode(protocol.EncodeReflect(tx), &back); err == nil {
+		t.Logf("decoding the reflect bytes gives HeartbeatTxnFields==nil: %v, txid %s", back.HeartbeatTxnFields == nil, back.ID())
+	}
+}
